@@ -2,7 +2,7 @@ package types
 
 import (
 	"net/http"
-	// "sort"
+	"sort"
 	"strings"
 	"sync"
 
@@ -146,14 +146,16 @@ func (mux *ServeMux) Handle(pattern string, handler http.Handler) {
 }
 
 func appendSorted(es []muxEntry, e muxEntry) []muxEntry {
-	// n := len(es)
-	// i := sort.Search(n, func(i int) bool {
-	// 	return len(es[i].pattern) < len(e.pattern)
-	// })
-	// if i == n {
-	// 	return append(es, e)
-	// }
-	i := 0
+	// longest pattern first: match returns the first prefix that fits, so the
+	// most specific registration must precede the shorter ones whatever the
+	// order of registration
+	n := len(es)
+	i := sort.Search(n, func(i int) bool {
+		return len(es[i].pattern) < len(e.pattern)
+	})
+	if i == n {
+		return append(es, e)
+	}
 	// we now know that i points at where we want to insert
 	es = append(es, muxEntry{}) // try to grow the slice in place, any entry works.
 	copy(es[i+1:], es[i:])      // Move shorter entries down
